@@ -12,7 +12,8 @@ C07 — no input can crash the host; errors are returned and leave the engine us
                               loop, the unwind loop (`stack_frames.pop()`, the `pop_count == 0` early return,
                               `pop_count -= 1`, closing the continuation mark with `stack.truncate(last.sp)`, the handler
                               search, re-pushing the frame for the handler with `pop_count += 1` (no dummy frame below it
-                              since /repo commit 0ad3663d), `stop!` when the handler is not a closure, `stack.clear()`).
+                              since /repo commit 0ad3663d), the replacement of the error when the handler is not a closure
+                              (/repo commit f4f0e66b; it used to be a `stop!` that left the loop), `stack.clear()`).
   * `runForms`              — `run_executable`: one `execute` per top-level form, stopping at the first `Err`.
   * `build`                 — `Compiler::compile_raw_program` (snapshot of `compiled_modules`, restored together with
                               `rollback_metadata()` on failure) followed by `Engine::raw_program_to_executable`
@@ -54,6 +55,9 @@ structure Thread where
 
 def top (s : List Val) : Val := s.getLast?.getD 0
 
+/-- the `TypeMismatch` raised for an exception handler that is not a function -/
+def handlerTypeError : Val := 2989
+
 inductive StepOut where
   | next (code : List Code) (t : Thread)
   | done (v : Val) (t : Thread)                      -- `vm()` returns `Ok(v)`
@@ -86,7 +90,11 @@ def vmStep (code : List Code) (t : Thread) : StepOut :=
   | .call body :: c =>
     .next body { t with frames := mkFrame t none false c :: t.frames, popCount := t.popCount + 1 }
   | .handle isC h body :: c =>
-    .next body { t with frames := mkFrame t (some (isC, h)) false c :: t.frames, popCount := t.popCount + 1 }
+    -- `call_with_exception_handler` rejects a handler that is not a closure before it pushes the frame
+    -- (since /repo commit f4f0e66b)
+    if isC then
+      .next body { t with frames := mkFrame t (some (isC, h)) false c :: t.frames, popCount := t.popCount + 1 }
+    else .raise handlerTypeError t
   | .callcc body :: c =>
     .next body { t with frames := mkFrame t none true c :: t.frames, popCount := t.popCount + 1 }
   | .fail e :: _ => .raise e t
@@ -110,7 +118,6 @@ def vmRun : Nat → List Code → Thread → VmOut
 inductive UnwindOut where
   | resume (code : List Code) (t : Thread)           -- `continue 'outer`: a handler takes over
   | fail (e : Val) (t : Thread)                      -- `return Err(e)`
-  | badHandler (t : Thread)                          -- `stop!(TypeMismatch => "expected a function for the exception handler")`
 
 /-- the `while let Some(last) = stack_frames.pop()` loop; `fs` = the frames not yet popped -/
 def unwind (e : Val) (t : Thread) : List Frame → UnwindOut
@@ -127,19 +134,20 @@ def unwind (e : Val) (t : Thread) : List Frame → UnwindOut
                                 frames := { f with handler := none, mark := false } :: rest,
                                 popCount := t2.popCount + 1 }
       | some (false, _) =>
-        .badHandler { t2 with stack := t2.stack.take f.sp ++ [e], frames := rest }
+        -- a handler that is not a closure cannot run: the error is replaced and the loop goes on
+        -- (`e = TypeMismatch "expected a function for the exception handler"; continue`, /repo commit f4f0e66b;
+        -- before that commit the loop was left here through `stop!`, with `rest` and the operands in place)
+        unwind handlerTypeError t2 rest
 
 inductive Outcome where
   | ok (v : Val)
   | error (e : Val)
-  | handlerNotAFunction                               -- also an `Err` for the caller
   | panic
   | outOfFuel
   deriving DecidableEq, Repr
 
 def Outcome.isErr : Outcome → Bool
   | .error _ => true
-  | .handlerNotAFunction => true
   | _ => false
 
 /-- marks still open in frames that are left when `vm()` returns `Ok` (`Continuation::close_marks` for each) -/
@@ -155,7 +163,6 @@ def executeLoop : Nat → List Code → Thread → Outcome × Thread
       match unwind e t' t'.frames with
       | .resume c' t'' => executeLoop n c' t''
       | .fail e' t'' => (.error e', t'')
-      | .badHandler t'' => (.handlerNotAFunction, t'')
     | .panic => (.panic, t)
     | .outOfFuel => (.outOfFuel, t)
 
